@@ -150,13 +150,14 @@ def F_restrict_native(ctx, lib, rule, only=None):
             seen.add((q, tuple(sorted(kinds))))
             ctx.ob(rule, key + ".chain", ok_chain, where=where, expected="x.iter().enumerate().fold(..): index = position of the tested entry", found=names)
             # the enumerated vector must be an interpretation handed in (parameter / candidate), not a field of self
-            caps_src = src
-            if b.kind == "closure":
-                pc = flow.resolve_captures(lib, parent) if parent.kind == "closure" else None
-                if pc is not None:
-                    caps_src = subst_upvars(src, pc)
-            bad_src = flow.find(caps_src, lambda n_: n_[0] == "field" and n_[1] == ("param", 1))
-            has_param = flow.find(caps_src, lambda n_: n_[0] == "param" and n_[1] >= 2) or flow.find(caps_src, lambda n_: n_[0] == "phi")
+            caps_src = flow.subst_upvars(src, flow.resolve_captures(lib, b) or []) if b.kind == "closure" else src
+            if parent.kind == "closure":
+                caps_src = flow.subst_upvars(src, flow.resolve_captures(lib, parent) or [])
+            self_fields = flow.find(caps_src, lambda n_: n_[0] == "field" and (n_[1] == ("param", 1) and parent.kind != "closure" or (n_[1][0] == "oparam" and n_[1][2] == 1 and "{closure" not in n_[1][1])))
+            bad_src = self_fields
+            has_param = (flow.find(caps_src, lambda n_: n_[0] == "param" and (n_[1] >= 2 or parent.kind == "closure"))
+                         or flow.find(caps_src, lambda n_: n_[0] == "oparam" and (n_[2] >= 2 or "{closure" in n_[1]))
+                         or flow.find(caps_src, lambda n_: n_[0] == "phi"))
             ctx.ob(rule, key + ".source", not bad_src and bool(has_param), where=where, expected="the interpretation/candidate handed to the enclosing function or closure",
                    found=flow.show(caps_src)[:160])
             ctx.ob(rule, key + ".operands", not problems, where=where, expected="restrict(acc, Var(i), value decided by class(entry i))", found=problems[:3])
@@ -177,17 +178,7 @@ def F_restrict_native(ctx, lib, rule, only=None):
 
 
 def subst_upvars(e, caps):
-    if not isinstance(e, tuple) or not e:
-        return e
-    if e[0] == "upvar":
-        return caps[e[1]] if e[1] < len(caps) else e
-    if e[0] == "call":
-        return ("call", e[1], e[2], tuple(subst_upvars(a, caps) for a in e[3]), e[4])
-    if e[0] in ("field", "downcast"):
-        return (e[0], subst_upvars(e[1], caps), e[2])
-    if e[0] == "index":
-        return ("index", subst_upvars(e[1], caps), subst_upvars(e[2], caps))
-    return e
+    return flow.subst_upvars(e, caps)
 
 
 def check_decide_one(ctx, lib, rule, b, bb, t):
@@ -208,7 +199,7 @@ def check_decide_one(ctx, lib, rule, b, bb, t):
     e = subst_upvars(e, caps)
     # restrict(self.bdd, *tree, Var(idx), !check_models)
     args = e[3]
-    tree_ok = args[1] == ("param", 2)
+    tree_ok = args[1] == ("param", 2)  # the map closure's own item
     var = args[2]
     val = args[3]
     # idx and check_models come from the same selection (min_by result / paths(ac).more_models())
@@ -221,7 +212,7 @@ def check_decide_one(ctx, lib, rule, b, bb, t):
 
 
 # ------------------------------------------------------------------ biodivine restriction lists
-def bio_list_tables(ctx, lib, rule):
+def bio_list_tables(ctx, lib, rule, which=("var_list", "var_list_from_term", "reduction")):
     """var_list / var_list_from_term (FULL) and the reduction_list closures (REDUCT)"""
     eng = ctx.engine([lib], intrinsics=shared.BIO_INTRINSICS)
     n = 0
@@ -252,6 +243,8 @@ def bio_list_tables(ctx, lib, rule):
         return res, I, VARI
 
     for fname_, kind in (("adfbiodivine::Adf::var_list", "bio"), ("adfbiodivine::Adf::var_list_from_term", "term")):
+        if fname_.split("::")[-1] not in which:
+            continue
         try:
             b = lib.one(fname_)
         except LookupError as e:
@@ -280,6 +273,8 @@ def bio_list_tables(ctx, lib, rule):
                        found=sorted(show(x) for x in mt[c]))
     # reduction lists
     for fname_ in ("adfbiodivine::Adf::stable", "adfbiodivine::Adf::stable_bdd_representation"):
+        if "reduction" not in which:
+            continue
         try:
             b = lib.one(fname_)
         except LookupError as e:
